@@ -345,6 +345,59 @@ fn clone_conformance(rep: &mut Report, seed: u64) {
     rep.hit_n("clone_conformance_scripts", n);
 }
 
+/// Capacities n of 2^16 and more in a 32-BIT build - n * n, n * n / 2 ... n * n / 16 pass the
+/// machine word there - the counterpart of nothing the 64-bit stages can afford (2^32 frames).
+/// A counting source; one `next()` (the refill must pull exactly one buffer's worth), then the
+/// rest of the buffer as one batch, then the next refill.
+fn large_capacity_refills(rep: &mut Report, shard: u64, nshards: u64, thorough: bool) {
+    rep.oblige("refills_of_2_pow_16_frames_and_more_in_a_32_bit_build", 1);
+    let caps: &[usize] = if thorough { &[65_537, 92_700, 185_400, 262_147, 131_072] } else { &[65_537, 92_700, 185_400] };
+    for (i, &cap) in caps.iter().enumerate() {
+        if (i as u64 + 1) % nshards != shard {
+            continue;
+        }
+        let case = format!("largecap={}", cap);
+        let pulls = std::rc::Rc::new(Cell::new(0u64));
+        let p2 = pulls.clone();
+        let res = vmon::catch(std::panic::AssertUnwindSafe(|| -> Result<(), (String, String)> {
+            let src = dasp_signal::gen_mut(move || {
+                let k = p2.get();
+                p2.set(k + 1);
+                k as f64 + 1.0
+            });
+            let mut buf = src.buffered(Bounded::from(vec![0f64; cap]));
+            let first = buf.next();
+            if first != 1.0 || pulls.get() != cap as u64 {
+                return Err(("buffered|large_capacity|refill_not_one_buffer".into(), format!("capacity {}: the first next() returned {} and pulled {} source frames (one buffer's worth is {})", cap, first, pulls.get(), cap)));
+            }
+            if cap > 100_000 {
+                // interpreter time: for the largest capacities only the first refill
+                return Ok(());
+            }
+            let (mut n, mut last, mut ordered) = (0usize, first, true);
+            for f in buf.next_frames() {
+                ordered &= f == last + 1.0;
+                last = f;
+                n += 1;
+            }
+            if n != cap - 1 || !ordered || last != cap as f64 || pulls.get() != cap as u64 {
+                return Err(("buffered|large_capacity|batch_wrong".into(), format!("capacity {}: the batch after one next() held {} frames (expected {}), in order: {}, last {}, source pulls {}", cap, n, cap - 1, ordered, last, pulls.get())));
+            }
+            let again = buf.next();
+            if again != cap as f64 + 1.0 || pulls.get() != 2 * cap as u64 {
+                return Err(("buffered|large_capacity|second_refill".into(), format!("capacity {}: after the buffer ran empty next() returned {} with {} source pulls in all", cap, again, pulls.get())));
+            }
+            Ok(())
+        }));
+        bump(&EVALS);
+        match res {
+            Ok(Ok(())) => rep.hit("refills_of_2_pow_16_frames_and_more_in_a_32_bit_build"),
+            Ok(Err((sig, d))) => rep.violation(&sig, d, case),
+            Err(m) => rep.violation("buffered|large_capacity|panic", format!("capacity {}: panicked: {}", cap, m), case),
+        }
+    }
+}
+
 fn classify(got: f64, want: f64) -> &'static str {
     if got == -9999.0 {
         "dead_slot_exposed"
@@ -406,6 +459,11 @@ fn main() {
             flush(&mut rep);
             finish(&cli, rep, t0);
         }
+        if m.contains_key("largecap") {
+            large_capacity_refills(&mut rep, 0, 1, true);
+            flush(&mut rep);
+            finish(&cli, rep, t0);
+        }
         if m.contains_key("iterconf") {
             batch_iterator_conformance(&mut rep, cli.seed, m["cap"].parse::<usize>().unwrap().max(1), 60);
             flush(&mut rep);
@@ -417,6 +475,10 @@ fn main() {
     }
     for o in ["wrapped_prefill", "partially_drained_batch", "drain_ended_with_padding"] {
         rep.oblige(o, 1);
+    }
+    if cli.stage == "miri" && usize::BITS < 64 {
+        large_capacity_refills(&mut rep, cli.shard, cli.nshards, cli.thorough());
+        flush(&mut rep);
     }
     let lean = cli.stage == "miri";
     let (max_cap, seq_len, max_src) = match cli.stage.as_str() {
